@@ -835,7 +835,10 @@ class IdxSet:
     def contains(self, j):
         """is position j among the index values?"""
         s = alg.sub(j, self.shift)
-        return alg.and_(in_range(s, self.n), self.member(s))
+        r = in_range(s, self.n)
+        if r is False:
+            return False  # concrete reading: no evaluation outside the source
+        return alg.and_(r, self.member(s))
 
 
 # --------------------------------------------------------------------------- get/set item
@@ -922,7 +925,16 @@ def arr_setitem(a, idx, value):
         if isinstance(value, (Arr, MArr)):
             raise Unsupported("index-array assignment of an array")
         # bounds: every index value must be a valid position
-        if active():
+        cn, ca, sh = alg.as_concrete(idx.n), alg.as_concrete(a.n), alg.as_concrete(idx.shift)
+        done = False
+        if cn is not None and ca is not None and sh is not None:
+            mem = [alg.as_concrete(idx.member(s_)) if alg.is_sym(idx.member(s_)) else idx.member(s_) for s_ in range(cn)]
+            if all(m is not None for m in mem):
+                done = True
+                for s_, m in enumerate(mem):
+                    if m and not 0 <= s_ + sh < ca:
+                        raise IndexError("index %d is out of bounds for axis 0 with size %d" % (s_ + sh, ca))
+        if active() and not done:
             k = cur().fresh("ix", z3.IntSort())
             bad = alg.and_(idx.contains(k), alg.not_(in_range(k, a.n)))
             if alg.simp(bad) is not False and _fork(bad):
